@@ -6,6 +6,7 @@ import XonshVerif.Proofs.TokStructure
 import XonshVerif.Proofs.TokCover
 import XonshVerif.Proofs.TokOrder
 import XonshVerif.Proofs.FstringText
+import XonshVerif.Proofs.TokGaps
 namespace XV.Tz
 open XV XV.Rx
 
@@ -194,5 +195,43 @@ theorem all_tokens_are_source_slices (E : Env) (P : Pats) (hP : PseudoProgress P
   · exact fstring_tokens_are_source_slices E P hP hF hE src hfin t ht hm
   · simp only [not_or] at hm
     exact tokens_are_source_slices E P hP src hfin t ht ⟨hm.1, hm.2.1, fun h => hm.2.2 h.1⟩
+
+
+theorem Gaps.adjacent {lines : List (List Nat)} {g : Pos} (pre : List Tok5) (a b : Tok5) (post : List Tok5)
+    (h : Gaps lines g (pre ++ a :: b :: post)) : Gap lines a.stop b.start := by
+  induction pre generalizing g with
+  | nil => exact h.2.1
+  | cons t ts ih => exact ih h.2
+
+/-- **gaps_are_indentation_or_continuation** (the gap clause of C08).  Under the three pattern certificates of
+    `all_tokens_are_source_slices` plus `EndGap` (the `End` branch of the master pattern - the backslash continuation -
+    consumes only backslash, CR and LF), on every text on which the tokenizer finishes: every character of the source that
+    lies before the first token or between two consecutive tokens is a blank, a tab or a form feed (the line-leading
+    indentation that `next_statement` measures) or a backslash, a CR or a LF (a backslash continuation).  Together with
+    the slice and order theorems: the tokens and these gaps tile the text up to the last token. -/
+theorem gaps_are_indentation_or_continuation (E : Env) (P : Pats) (hP : PseudoProgress P) (hF : FstrLen P) (hE : FstrEnds P)
+    (hEG : EndGap P) (src : List Nat) (hfin : (tokenize E P src).err = none) :
+    Gaps (splitLines src []) ⟨1, 0⟩ (tokenize E P src).toks := by
+  unfold tokenize at hfin ⊢
+  simp only [] at hfin ⊢
+  cases h : tokenizeLines E P ((splitLines src []).length + 2) (splitLines src []) TState.init [] with
+  | error e => rw [h] at hfin; simp at hfin
+  | ok ts =>
+    simp only []
+    exact tokenizeLines_g (splitLines src []) E P hP hF hE hEG _ _ TState.init [] ts ⟨0, 0⟩ ⟨1, 0⟩ rfl (OI.empty (Pos.le_refl' _))
+      (by intro p rest hp; cases hp) (Or.inl ⟨rfl, rfl⟩) (by simp [TState.init]) trivial
+      ⟨(by intro p rest hp; cases hp), fun _ => Gap.refl _ _⟩ (MidOK.nil _) h
+
+/-- the same for any two neighbours of the stream -/
+theorem between_consecutive_tokens (E : Env) (P : Pats) (hP : PseudoProgress P) (hF : FstrLen P) (hE : FstrEnds P)
+    (hEG : EndGap P) (src : List Nat) (hfin : (tokenize E P src).err = none) (pre : List Tok5) (a b : Tok5) (post : List Tok5)
+    (hsplit : (tokenize E P src).toks = pre ++ a :: b :: post) :
+    ∀ c ∈ srcText (splitLines src []) a.stop b.start, c = 32 ∨ c = 9 ∨ c = 12 ∨ c = 92 ∨ c = 13 ∨ c = 10 := by
+  have h := gaps_are_indentation_or_continuation E P hP hF hE hEG src hfin
+  rw [hsplit] at h
+  intro c hc
+  have := Gaps.adjacent pre a b post h c hc
+  simp only [gapChar, Bool.or_eq_true, decide_eq_true_eq] at this
+  omega
 
 end XV.Tz
